@@ -556,7 +556,7 @@ def _run(rep, tier, replay, ok, info, top):
   t0 = time.time()
   programs, inc = all_programs(tier, r, top)
   seeds = list(range(16 if tier == 'quick' else 128))
-  histories = ['others-first', 'incantation-first', 'reuse-rules', 'typed-first', 'incantation-first/CPP']
+  histories = ['others-first', 'incantation-first', 'failed-incantation-first', 'reuse-rules', 'typed-first', 'incantation-first/CPP']
   if replay:
     with open(replay) as f:
       rp = json.load(f)
@@ -576,6 +576,11 @@ def _run(rep, tier, replay, ok, info, top):
     pool.add('hist/others-first', [step_of(p) for p in reversed(programs)] + [step_of(p) for p in plain])
   if 'incantation-first' in histories:
     pool.add('hist/incantation-first', [step_of(inc_prog, 'parse')] + [step_of(p) for p in plain])
+  if 'failed-incantation-first' in histories:
+    # a main file with the incantation that does NOT parse (unbalanced rule, then a missing import), then plain programs
+    broken = dict(step_of(inc_prog, 'parse'), id='failed_incantation', text=inc_prog['text'] + '\nBrokenRule(x :- ;\n')
+    broken2 = dict(step_of(inc_prog, 'parse'), id='failed_incantation_import', text='import nowhere.zz.Nope;\n' + inc_prog['text'])
+    pool.add('hist/failed-incantation-first', [broken, broken2] + [step_of(p) for p in plain])
   if 'reuse-rules' in histories:
     pool.add('hist/reuse-rules', [s for p in plain for s in (step_of(p, 'reuse'), step_of(p, 'reuse'))])
   if 'typed-first' in histories:
@@ -664,6 +669,8 @@ def _run(rep, tier, replay, ok, info, top):
       pairs = list(zip(plain, v[len(programs):]))
     elif h == 'reuse-rules':
       pairs = list(zip(plain, v[1::2]))
+    elif h == 'failed-incantation-first':
+      pairs = list(zip(plain, v[2:]))
     elif cpp:
       pairs = list(zip(sens, v[1:]))
     else:
